@@ -726,6 +726,8 @@ class LabelSeries:
 
 
 def _maskload(vec, mask):
+    if any(isinstance(m, (int, Fr)) and not isinstance(m, bool) for m in mask.v):
+        raise Undecided("selection by an array of numbers that is not known to be literal positions")        # (never read as a mask: that would drop every row)
     return Vec(x if m is True else None for m, x in zip(mask.v, vec.v))
 
 
@@ -872,8 +874,22 @@ def load_subscript(it, obj, k):
             if not v.v:
                 raise Raised("IndexError")
             return v.v[k]
-        if isinstance(k, Vec):
+        if obj.name == "iloc" and hasattr(k, "as_mask"):
+            return _maskload(v, k.as_mask())             # positions taken from a mask over row classes: the classes the mask selects
+        if isinstance(k, Vec) and obj.name == "iloc" and k.exact and v.exact and all(isinstance(i, int) and not isinstance(i, bool) for i in k.v):
+            # Series.iloc[<integer array>]: the elements at those positions, in that order, each under its own label
+            if not all(-len(v.v) <= i < len(v.v) for i in k.v):
+                raise Raised("IndexError", "positional indexers are out-of-bounds")
+            r = Vec([v.v[i] for i in k.v], aligned=("subset" if (v.aligned is True or v.fresh) else v.aligned))
+            r.exact = True
+            base_labels = v.labels if v.labels is not None and len(v.labels) == len(v.v) else (list(range(len(v.v))) if (v.fresh or v.aligned is True) else None)
+            if base_labels is not None:
+                r.labels = [base_labels[i] for i in k.v]
+            return r
+        if isinstance(k, Vec) and k.v and all(isinstance(m, bool) for m in k.v) or isinstance(k, Vec) and not k.v:
             return _maskload(v, k)
+        if isinstance(k, Vec):
+            raise Undecided(f"Series .{obj.name}[<array that is neither a literal mask nor literal positions>]")
         raise Undecided(f"Series .{obj.name}[{k!r}]")
     if isinstance(obj, DF):
         if isinstance(k, Vec):
@@ -1385,6 +1401,12 @@ def _lib_bind(kind, name, args, kw):
 
 def value_method(it, obj, name, args, kw):
     ai = _ai()
+    if name == "__getitem__" and len(args) == 1 and not kw:
+        return load_subscript(it, obj, args[0])          # x.__getitem__(k) is x[k]
+    if name == "__len__" and not args and not kw:
+        return builtin(it, "len")(obj)
+    if name == "__contains__" and len(args) == 1 and not kw:
+        return ai.compare(ast.In(), args[0], obj)
     if isinstance(obj, Vec):
         args, kw = _lib_bind("Vec", name, args, kw)
         return vec_method(it, obj, name, args, kw)
